@@ -1,6 +1,6 @@
 """Shared extraction of the binary codec tables (decoder methods, parse_operand, parse_*_arguments, assembler arms)."""
 from ..core import Anchor
-from ..tree import int_of, is_node, lastseg, path_of, show, strip_refs, walk
+from ..tree import int_of, is_node, lastseg, path_of, show, strip_refs, unblock, walk
 
 DEC = "rspirv::binary::decoder"
 PAR = "rspirv::binary::parser"
@@ -152,6 +152,7 @@ def _is_panic(n):
 
 
 def _parse_arm(body):
+    body = unblock(body)
     if body[0] == "vec":
         ops = [_variant_method(x) for x in body[1]]
         if all(ops):
@@ -208,10 +209,12 @@ def parse_arguments(ctx):
                     if guard is not None:
                         raise Anchor("guarded arm in %s" % n)
                     if pat[0] == "p_wild":
+                        body = unblock(body)
                         if not (body[0] == "vec" and not body[1]):
                             raise Anchor("%s: fall-through arm yields operands: %s" % (n, show(body)[:80]))
                         continue
                     pats = pat[1] if pat[0] == "p_or" else [pat]
+                    body = unblock(body)
                     if body[0] != "vec":
                         raise Anchor("%s: arm body is not a vec!: %s" % (n, show(body)[:80]))
                     ops = [_variant_method(x) for x in body[1]]
